@@ -21,10 +21,14 @@ type FuncContract struct {
 	Props        []string
 	Requires     []Clause
 	Ensures      []Clause
+	Assumes      []Clause // postconditions assumed at call sites and NOT proved (listed as assumptions)
+	Presumes     []Clause // preconditions assumed in the body and NOT checked at call sites (listed as assumptions)
 	Lets         []LetBinding
 	Modifies     []SExpr
 	ModAll       bool
+	ModInferred  bool // modifies inferred: the write effects computed from the code (component granularity)
 	LoopInv      map[int][]Clause
+	LoopPresume  map[int][]Clause // assumed at the loop header, never checked (listed as assumptions)
 	LoopDec      map[int]Clause
 	LoopMod      map[int][]SExpr
 	Asserts      []Clause
@@ -93,7 +97,7 @@ var propTag = regexp.MustCompile(`\s*\[((?:C\d+\s*)+)\]\s*$`)
 var labelRe = regexp.MustCompile(`^([a-zA-Z_][a-zA-Z0-9_.\-]*):\s+`)
 
 var clauseKeywords = map[string]bool{"func": true, "pred": true, "specfunc": true, "axiom": true, "lemma": true, "ghost": true,
-	"requires": true, "ensures": true, "modifies": true, "let": true, "loop": true, "trusted": true, "inline": true,
+	"requires": true, "ensures": true, "assumes": true, "presumes": true, "modifies": true, "let": true, "loop": true, "trusted": true, "inline": true,
 	"noreturn": true, "assert": true, "bounded": true, "nopanic": true, "noframe": true, "sigreads": true}
 
 // loadContractFile parses one contract file. pkg is the package name used to qualify
@@ -175,10 +179,10 @@ func (cs *Contracts) loadContractText(path, pkg, text string) error {
 				cur = old
 				cur.Props = append(cur.Props, props...)
 			} else {
-				cur = &FuncContract{Key: key, Props: props, LoopInv: map[int][]Clause{}, LoopDec: map[int]Clause{}, LoopMod: map[int][]SExpr{}, Where: where}
+				cur = &FuncContract{Key: key, Props: props, LoopInv: map[int][]Clause{}, LoopPresume: map[int][]Clause{}, LoopDec: map[int]Clause{}, LoopMod: map[int][]SExpr{}, Where: where}
 				cs.Funcs[key] = cur
 			}
-		case "requires", "ensures", "assert":
+		case "requires", "ensures", "assert", "assumes", "presumes":
 			if cur == nil {
 				return fail(fmt.Errorf("clause outside func"))
 			}
@@ -191,6 +195,12 @@ func (cs *Contracts) loadContractText(path, pkg, text string) error {
 				cur.Requires = append(cur.Requires, c)
 			case "ensures":
 				cur.Ensures = append(cur.Ensures, c)
+			case "presumes":
+				cur.Presumes = append(cur.Presumes, c)
+				cs.Scan = append(cs.Scan, "presumed precondition (assumed, not checked at call sites) of "+cur.Key+": "+c.Src+" @ "+where)
+			case "assumes":
+				cur.Assumes = append(cur.Assumes, c)
+				cs.Scan = append(cs.Scan, "assumed postcondition (not proved) of "+cur.Key+": "+c.Src+" @ "+where)
 			case "assert":
 				cur.Asserts = append(cur.Asserts, c)
 			}
@@ -203,6 +213,10 @@ func (cs *Contracts) loadContractText(path, pkg, text string) error {
 			}
 			if rest == "*" {
 				cur.ModAll = true
+				break
+			}
+			if rest == "inferred" {
+				cur.ModInferred = true
 				break
 			}
 			for _, part := range splitCommaTop(rest) {
@@ -245,6 +259,13 @@ func (cs *Contracts) loadContractText(path, pkg, text string) error {
 					return fail(err)
 				}
 				cur.LoopInv[n] = append(cur.LoopInv[n], c)
+			case "presumes":
+				c, err := parse(body)
+				if err != nil {
+					return fail(err)
+				}
+				cur.LoopPresume[n] = append(cur.LoopPresume[n], c)
+				cs.Scan = append(cs.Scan, fmt.Sprintf("presumed loop fact (assumed, not checked) in %s loop %d: %s @ %s", cur.Key, n, c.Src, where))
 			case "decreases":
 				c, err := parse(body)
 				if err != nil {
